@@ -322,7 +322,7 @@ def check_C09():
     cov = {"states": ri.distinct + rs.distinct + rf.distinct + stats.get("trace_states", 0), "transitions": ri.generated + rs.generated + rf.generated,
            "traces_validated_against_impl": stats.get("trace_pairs", 0), "declarations_built": ndecl,
            "float_shapes": len(shapes), "float_shape_input_classes_failing_in_design_model": len(model_panics),
-           "evaluations": stats.get("trace_pairs", 0), "distinct_nontrivial": stats.get("trace_pairs", 0),
+           "evaluations": stats.get("trace_pairs", 0), "distinct_nontrivial": stats.get("nontrivial_pairs", 0),
            "rule": "three generator models are model-checked (integer: exact; string: exact over character classes; float: design model of the scaling/adjust arithmetic); "
                    "their declarations / shapes are instantiated, compiled and driven with empty, all-00/all-FF, boundary-pattern, model-derived (target length + little-endian chars, "
                    "from0to1 = 0, 1/2, 1, basic value zero/max/inf/NaN) and random byte strings under catch_unwind with a watchdog; every outcome is validated by TLC (ArbOK)",
